@@ -1,6 +1,7 @@
 use crate::runner::Property;
 
 pub mod c01;
+pub mod c06;
 pub mod c07;
 pub mod c08;
 pub mod c13;
@@ -16,6 +17,7 @@ pub mod common;
 pub fn by_id(id: &str) -> Option<Box<dyn Property>> {
     Some(match id {
         "C01" => Box::new(c01::C01),
+        "C06" => Box::new(c06::C06),
         "C07" => Box::new(c07::C07),
         "C08" => Box::new(c08::C08),
         "C13" => Box::new(c13::C13),
